@@ -8,6 +8,25 @@ NOTE = ("Trusted: Lean 4.33 kernel + axioms {propext, Classical.choice, Quot.sou
         "vs compiled model driver on generated inputs), tables by tools/gen_tables.py; Spec predicates are additionally run "
         "on the implementation's own output. A theorem speaks about the model; the implementation is covered where the campaign compared them.")
 CLAIMS = {
+    'C01': ("Theorems: the independent pcap reader recovers header and every record from header ++ records for all sizes < 2^32; write_packet "
+            "restores the packet (headroom borrowing unobservable) for every size; for every program and library the output file of a "
+            "successful run is header ++ the records of the expression statements' packets in statement/generation order; let/import "
+            "write nothing; a bare reference to a stored packet writes it each time without executing anything. Correspondence: "
+            "random programs, examples, frame sizes 14..65535; Spec.parsePcap on the real file.", "7 C01",
+            "Lean proof (interpreter output invariant, reader/writer round trip) + byte-exact correspondence"),
+    'C11': ("Theorems: argvec = declarative three-phase Spec.bind for every well-formed signature and every call (accept/reject, vector, "
+            "tail; never panics); rejected iff one of six named reasons; 16x16 compatibility table = prose; every signature of the "
+            "regenerated library table is well-formed (decide +kernel). Correspondence: all real signatures x call shapes through the "
+            "real FuncDef::argvec.", "7 C11", "Lean proof (state machine = declarative convention) + exhaustive small-scope correspondence"),
+    'C12': ("Theorems over arbitrary statement lists: sec/nsec split exact below 2^32 s, timestamps monotone, strictly increasing between "
+            "packet-emitting statements, gap of a statement a function of its value only, a jump of d shifts exactly the later records by d "
+            "(all four units). Correspondence + Spec.parsePcap times of real files incl. twin programs with an inserted jump.", "7 C12",
+            "Lean proof (clock invariants, shift simulation) + twin-program differential runs"),
+    'C19': ("Theorems: BufWriter/device accounting; for every program and every budget k < output length the run is a failure (Io), never "
+            "success, never panic; success implies the complete file; device content always a prefix. Fault enumeration on the real binary: "
+            "RLIMIT_FSIZE at every byte offset (small programs) / all buffer boundaries +-1 (large), /dev/full, missing directories, "
+            "missing input and data files. OS write(2)/BufWriter behaviour is an assumption confirmed by the enumeration.", "7 C19",
+            "Lean proof (lock-step simulation of budgeted vs unlimited writer) + fault enumeration on the real binary"),
     'C09': ("Theorems: the LR automaton never panics (stack invariant, fuel bound), parseAll = recursive-descent Spec.parse for EVERY token list "
             "(accept/reject, statements, error index), Spec.parse sound+complete for the inductive grammar, viable-prefix error position, "
             "line splitting irrelevant. Correspondence: exhaustive kind sequences + grammar-directed sentences and mutants through the real "
